@@ -121,6 +121,15 @@ func (sw *StreamWriter) PrepareIncremental() error {
 			return fmt.Errorf("error during flatten in StreamWriter: %w", err)
 		}
 		sw.prevLevel = len(sw.db.Levels()) - 1
+		// Flatten consolidates the tables into a single level, which need not be the last one
+		// (L0 merges into the base level). Writing to the level above the last one would then
+		// put the new tables next to the existing ones and make them overlap.
+		for _, level := range sw.db.Levels() {
+			if level.Level > 0 && level.NumTables > 0 {
+				sw.prevLevel = level.Level
+				break
+			}
+		}
 	}
 	return nil
 }
